@@ -973,27 +973,28 @@ Example parse_error_at_end_of_input_located :
     /\ flat_map (locations_of (s "/w/q.graphql")) texts = [(2, 1)].
 Proof. intros [| |]; eexists; vm_compute; split; reflexivity. Qed.
 
-(** an error value of a printer reaches the driver without position (the blanket From impl drops it) *)
+(** the former finding: an error value of a printer keeps its position (generate.rs `positioned`), so a
+    generate-stage fault — a custom scalar without a TypeScript type — is located in all three formats *)
 Definition scalar_witness (f : fmt) : proj :=
   mk_proj (s "/w") [s "generate"] f CfgOk [] false
     [mk_schf (s "/w/schema.graphql") (s "scalar Date
 type Query { d: Date }
 ") None] []
     [] None [] [] (mk_gencfg WithLoaderTS50 (Some (s "out/schema.d.ts")) None None false false)
-    (SErr (plain (s "Type for scalar 'Date' is not provided"))) SOk SOk.
+    (SErr (mkerr (s "Type for scalar 'Date' is not provided") (Some (mkpos 0 0 0 false)) [])) SOk SOk.
 
-Lemma generate_error_not_located_refuted :
+Example generate_error_located :
   forall f, exists texts,
     run_texts (scalar_witness f) = Some (1, texts)
-    /\ flat_map (locations_of (s "/w/schema.graphql")) texts = []
-    /\ match run (scalar_witness f) with
-       | Exit _ out _ _ => match f with Human => True | _ => exists t, parse_json out = Some t /\ (json_diags t = Some [] \/ rdjson_diags t = Some []) end
-       | Crash _ _ => False
-       end.
-Proof.
-  intros [| |]; eexists; vm_compute; (split; [reflexivity|split; [reflexivity|]]); auto;
-    eexists; split; try reflexivity; auto.
-Qed.
+    /\ flat_map (locations_of (s "/w/schema.graphql")) texts = [(1, 1)]
+    /\ outcome_written (run (scalar_witness f)) = [].
+Proof. intros [| |]; eexists; vm_compute; repeat split. Qed.
+
+(** a printer error with a built-in position (a schema loaded from introspection JSON has no file to name)
+    is printed as the bare message *)
+Lemma builtin_position_bare files m add :
+  print_positioned_error files (mkerr m (Some (mkpos 0 0 0 true)) add) = Some m.
+Proof. reflexivity. Qed.
 
 (** * non-vacuity: the guards of the theorems are met by ordinary projects *)
 
